@@ -232,6 +232,9 @@ def handle (op : String) (f : List String) : Verdict :=
       ⟨.tie, tags, "map-range site(s) without a permutation-invariance theorem (new or edited loop): " ++ " | ".intercalate (unprovedSites.map showSite)⟩
     else if !unreviewedSources.isEmpty then
       ⟨.tie, tags, "new or edited clock/address/seed/goroutine source(s), not reviewed: " ++ " | ".intercalate (unreviewedSources.map showSite)⟩
+    else if !commandsNotSeeded.isEmpty then
+      ⟨.tie, tags, "commands whose nearest persistent pre-run hook hides the root's, so that rand.Seed(seed) is never called (cobra runs only the nearest hook): " ++
+        ", ".intercalate (commandsNotSeeded.map (fun r => r.1 ++ " (hook of `" ++ r.2 ++ "`)"))⟩
     else if !staleProofs.isEmpty || !staleSources.isEmpty then
       ⟨.tie, tags, "proved/reviewed entries that no longer exist in the source: " ++ " | ".intercalate (staleProofs ++ staleSources)⟩
     else ⟨.pass, tags, ""⟩
